@@ -123,6 +123,21 @@ func mdaDescribe(bz []byte) string {
 			b32 = "!" + s
 		}
 	}
+	// a session address put together again from its own parts (parent scope address + session uuid)
+	rb := "-"
+	if err == nil && ma.IsSessionAddress() {
+		rb = mdaE(func() ([]byte, error) {
+			sc, e1 := ma.AsScopeAddress()
+			if e1 != nil {
+				return nil, e1
+			}
+			su, e2 := ma.SessionUUID()
+			if e2 != nil {
+				return nil, e2
+			}
+			return sc.AsSessionAddress(su)
+		})
+	}
 	var sb strings.Builder
 	sb.WriteString("a=" + mdaHex(bz) + " v=" + v + " hrp=" + hrp)
 	sb.WriteString(" pu=" + mdaE(u16(ma.PrimaryUUID)))
@@ -137,7 +152,7 @@ func mdaDescribe(bz []byte) string {
 	sb.WriteString(" sit=" + mdaE(ma.ScopeSessionIteratorPrefix))
 	sb.WriteString(" rit=" + mdaE(ma.ScopeRecordIteratorPrefix))
 	sb.WriteString(" rsit=" + mdaE(ma.ContractSpecRecordSpecIteratorPrefix))
-	sb.WriteString(" is=" + is + " um=" + mdaBool(umOK) + " det=" + det + " b32=" + b32)
+	sb.WriteString(" is=" + is + " um=" + mdaBool(umOK) + " det=" + det + " b32=" + b32 + " rb=" + rb)
 	return sb.String()
 }
 
